@@ -43,6 +43,15 @@ def scan_forbidden():
                 bad.append("%s:%d: %s" % (f, n, line.strip()))
     return bad
 
+def run_coqchk(prop):
+    """thorough tier: re-check the compiled property file and everything it depends on with the independent checker"""
+    rc, out = sh(["coqchk", "-o", "-silent", "-Q", ".", "Msm", "Msm.Properties_%s" % prop], cwd=COQ, timeout=3000)
+    m = re.search(r"\* Axioms:\s*(.*?)\n\s*\n", out, re.S)
+    axioms = " ".join(m.group(1).split()) if m else "?"
+    return {"rc": rc, "axioms": axioms,
+            "cmd": "coqchk -o -silent -Q coq Msm Msm.Properties_%s" % prop,
+            "ok": rc == 0 and axioms == "<none>"}
+
 def build_proofs(prop, log):
     """returns dict(regen_ok, obligations=[names], discharged=[names], axioms={name: text}, errors=[...], checker_cmd)"""
     res = {"obligations": [], "discharged": [], "axioms": {}, "errors": [], "regen_ok": True,
@@ -183,7 +192,7 @@ def run_cases(prop, spec, cases, stats, log):
         if spec.get("cross_cfg") and st == "RUN":
             for idx, (kind, ops, info, r) in enumerate(outs):
                 if kind in ("OK", "DIFF") and r and r.get("impl"):
-                    cross.setdefault((n, idx), []).append((c, md, ops, [spec["cross_cfg"](b) for b in r["impl"]]))
+                    cross.setdefault((n, idx), []).append((c, md, ops, [spec["cross_cfg"](monitors.canon_block(b, r["ids"])) for b in r["impl"]]))
     for (n, idx), lst in cross.items():
         c0, md0, ops0, p0 = lst[0]
         for c1, md1, ops1, p1 in lst[1:]:
@@ -273,6 +282,11 @@ def run_check(prop, spec, tier, replay=None):
             return 1
         return 0
     proofs = build_proofs(prop, log)
+    chk = None
+    if tier == "thorough" and not proofs["errors"]:
+        chk = run_coqchk(prop)
+        if not chk["ok"]:
+            proofs["errors"].append("coqchk: rc %s, axioms %s" % (chk["rc"], chk["axioms"]))
     # 1. pinned replays: known findings (must still fail the monitor / be reported) and fixed ones (must pass)
     known_lines, violations, mismatches = [], [], []
     for kf in known_findings():
@@ -285,7 +299,7 @@ def run_check(prop, spec, tier, replay=None):
             for cx in raw["cross"]:
                 rx = corr.compare(md, cx, ops)
                 okmodel = okmodel and (rx.get("bad") or rx["ok"])
-                projs.append([spec["cross_cfg"](b) for b in rx.get("impl", [])] if spec.get("cross_cfg") else rx.get("impl"))
+                projs.append([spec["cross_cfg"](monitors.canon_block(b, rx["ids"])) for b in rx.get("impl", [])] if spec.get("cross_cfg") and rx.get("ids") else rx.get("impl"))
             stats.traces += len(raw["cross"])
             if projs[0] != projs[1]:
                 known_lines.append("KNOWN-FINDING: property=%s %s (%s)" % (prop, kf["what"], kf["id"]))
@@ -412,6 +426,7 @@ def run_check(prop, spec, tier, replay=None):
             "distribution": {str(k): v for k, v in stats.dist.most_common(40)},
             "discarded": dict(stats.discarded), "unsupported_configurations_skipped": stats.unsupported,
             "configurations": spec["cfgs"], "profile": spec["profile"],
+            "independent_checker": chk if chk else "coqchk runs in the thorough tier",
             "mismatches": len(mismatches), "known_findings_reported": known_lines,
             "build_seconds_total": round(stats.build_s, 1),
         },
